@@ -470,14 +470,16 @@ func (p *Parser) parseMultiSelectHash() (ASTNode, error) {
 		if p.current() == tComma {
 			err := p.match(tComma)
 			if err != nil {
-				return ASTNode{}, nil
+				return ASTNode{}, err
 			}
 		} else if p.current() == tRbrace {
 			err := p.match(tRbrace)
 			if err != nil {
-				return ASTNode{}, nil
+				return ASTNode{}, err
 			}
 			break
+		} else {
+			return ASTNode{}, p.syntaxError("Expected tComma or tRbrace, received: " + p.current().String())
 		}
 	}
 	return ASTNode{
